@@ -20,6 +20,19 @@ func dumpFunc(p *Program, name string) {
 		fmt.Println(strings.Join(names, "\n"))
 		return
 	}
+	if name == "params" {
+		var lines []string
+		for k, fn := range p.Funcs {
+			l := normName(k)
+			for _, q := range fn.Params {
+				l += "\t" + q.Name()
+			}
+			lines = append(lines, l)
+		}
+		sort.Strings(lines)
+		fmt.Println(strings.Join(lines, "\n"))
+		return
+	}
 	fn := p.Fn(name)
 	if fn == nil {
 		fmt.Println("no such function; use -dump '?' to list")
